@@ -237,6 +237,12 @@ func oplNsTokens(nss []namespace.Namespace) string {
 // lexer and costs nothing); the stream goes on.
 var oplWatchdog = time.Duration(envInt("VERIF_OPL_WATCHDOG_MS", 5000)) * time.Millisecond
 
+// oplHangs counts the inputs on which the watchdog fired; after oplMaxHangs the stream
+// stops generating (every hang costs the watchdog time, and the finding is established).
+var oplHangs int
+
+const oplMaxHangs = 3
+
 // parse runs parseInner under the watchdog.
 func (e *oplEnv) parse(input string) oplParsed {
 	ch := make(chan oplParsed, 1)
@@ -247,6 +253,7 @@ func (e *oplEnv) parse(input string) oplParsed {
 	case res := <-ch:
 		return res
 	case <-timer.C:
+		oplHangs++
 		return oplParsed{cols: "hang=1", hang: true, millis: oplWatchdog.Milliseconds()}
 	}
 }
@@ -261,6 +268,7 @@ func oplLexWatched(input string) string {
 	case res := <-ch:
 		return res
 	case <-timer.C:
+		oplHangs++
 		return "hang=1"
 	}
 }
@@ -583,6 +591,9 @@ func streamOpl(t *testing.T, o *Out) {
 
 	// corpus first: "opl <id> <op> <payload…>"
 	for _, l := range corpusLines("opl") {
+		if oplHangs >= oplMaxHangs {
+			break
+		}
 		parts := strings.Fields(l)
 		if len(parts) < 4 {
 			t.Fatalf("corpus line %q: too short", l)
@@ -629,7 +640,7 @@ func streamOpl(t *testing.T, o *Out) {
 		}
 	}
 
-	for i := 0; i < n; i++ {
+	for i := 0; i < n && oplHangs < oplMaxHangs; i++ {
 		switch c := i % 20; {
 		case c < 4:
 			// (a) grammar-derived document, every spelling
